@@ -41,6 +41,7 @@ func gen(r *sim.Rng, tier string) *sim.Case {
 		// where on the time axis the run sits: 0 near start, 1 somewhere, 2 just below 2^41 ms, 3 before the start, 4 beyond 2^41 ms
 		p["region"] = r.Pick(4, 4, 2, 1, 1)
 		p["emode"] = r.Pick(6, 1, 1)
+		p["read_jitter"] = r.Pick(4, 1) // the clock moves a little at every read
 		p["default_id"] = r.Pick(5, 1)
 		p["echunk"] = []int{0, 0, 1, 2}[r.N(4)]
 		if r.Pct(25) {
@@ -50,7 +51,7 @@ func gen(r *sim.Rng, tier string) *sim.Case {
 		n := r.Range(2, 12)
 		for i := 0; i < n; i++ {
 			// clock advance before this Generate call, by kind
-			c.Ops = append(c.Ops, sim.Op{Op: "Generate", K: r.Pick(2, 3, 3, 2, 3), V: r.N(1 << 30)})
+			c.Ops = append(c.Ops, sim.Op{Op: "Generate", K: r.Pick(4, 6, 6, 4, 6, 1), V: r.N(1 << 30)})
 		}
 	case 1:
 		p["setlen"] = r.Range(1, 40)
@@ -206,8 +207,17 @@ func idGen(c *sim.Case, r *sim.Rng, out *sim.WorkerOut, dg *engc.Digest) (*sim.V
 			el := now - startNs
 			next := (el/ms + 1) * ms
 			now = startNs + next + []int64{-1, 0, 1}[op.V%3]
+		case 5: // the clock steps backwards (NTP)
+			now -= int64(op.V) % (50 * ms)
+			out.Faults["clock_stepped_backwards"]++
 		}
 		stime.Clock = now
+		if p["read_jitter"] == 1 {
+			// every read of the clock moves it by up to 0.7 ms: a generator that reads the
+			// clock more than once sees different values
+			jr := sim.NewRng(uint64(op.V) + 17)
+			stime.OnRead = func() { stime.Clock += int64(jr.N(700000)) }
+		}
 		reads0 := stime.Reads
 		var id int64
 		if useDefault {
@@ -222,18 +232,21 @@ func idGen(c *sim.Case, r *sim.Rng, out *sim.WorkerOut, dg *engc.Digest) (*sim.V
 		if id < 0 {
 			return viol("shape:IdGenerator.Generate", "(*IdGenerator).Generate", "call %d: negative id %d (randBit=%d, elapsed=%dns)", i, id, rb, now-startNs), true
 		}
+		stime.OnRead = nil
 		el := now - startNs
-		E := el / ms // Duration.Milliseconds truncates toward zero
-		if E >= 0 && E < 1<<41 {
+		E := el / ms      // Duration.Milliseconds truncates toward zero
+		now = stime.Clock // the reads may have moved the clock
+		E2 := (now - startNs) / ms
+		if E >= 0 && E2 < 1<<41 {
 			if rb >= 2 && rb <= 22 {
-				if id>>uint(rb) != E {
-					return viol("shape:IdGenerator.Generate", "(*IdGenerator).Generate", "call %d: id %d >> randBit(%d) = %d, elapsed milliseconds = %d", i, id, rb, id>>uint(rb), E), true
+				if got := id >> uint(rb); got < E || got > E2 {
+					return viol("shape:IdGenerator.Generate", "(*IdGenerator).Generate", "call %d: id %d >> randBit(%d) = %d, elapsed milliseconds = %d..%d", i, id, rb, id>>uint(rb), E, E2), true
 				}
 			}
 			if prevValid && E > prevE && id <= prevID {
 				return viol("shape:IdGenerator.Generate", "(*IdGenerator).Generate", "call %d: ids taken >= 1 ms apart do not increase: %d then %d (elapsed %d ms then %d ms, randBit=%d)", i, prevID, id, prevE, E, rb), true
 			}
-			prevID, prevE, prevValid = id, E, true
+			prevID, prevE, prevValid = id, E2, true
 		} else {
 			prevValid = false
 			out.Probes["elapsed_outside_41_bits"]++
